@@ -173,4 +173,12 @@ CHECKS["C10"] = dict(
            dict(name="forced-stop", run="^TestStopRightAfterStarted$", quick=100, thorough=3000, shards_thorough=4)],
 )
 
+CHECKS["C18"] = dict(
+    pkg="c18", race=True, level="exploration", timeout_quick=900, timeout_thorough=3000,
+    technique="property-based testing (rapid) of concurrent request-reply programs: real command bus/processor/backend over a GoChannel reply topic, commands relayed through a scripted subscriber, reply publisher wrapped to sample settlement; listener termination checked before the caller drains",
+    level_text="Generated programs of 1..32 concurrent callers with handler scripts (failures producing several replies through Nack redelivery), both AckCommandErrors settings, optional time-outs and caller behaviours that stop reading or cancel at different moments run against the real request-reply components; every received reply, every command settlement relative to its reply Publish, the finish hook per request, reply-channel closure and leftover listener goroutines are checked.",
+    level_note="Trusted: the scripted command relay, the reply-publisher wrapper and the goroutine-dump based leak detection. The terminal time-out reply is exempt from the own-command rule.",
+    steps=[dict(name="requestreply", run="^TestRequestReply$", quick=150, thorough=6000, shards_thorough=16)],
+)
+
 NOT_APPLICABLE = {}
